@@ -427,31 +427,25 @@ func (p *Prog) checkCodecPairing(c *Check) {
 				c.Bad("R1.4", cons, pos, "the byte written is not the value / the value stored is not the byte read")
 			}
 		case "bool":
-			// encoder: 1 on true, 0 on false
+			// encoder: 1 on true, 0 on false — the primitive is evaluated on a one-byte buffer for both values
 			vals := map[bool]int64{}
-			for _, b := range enc.Blocks {
-				for _, ins := range b.Instrs {
-					s, ok := ins.(*ssa.Store)
-					if !ok {
-						continue
-					}
-					if _, isIA := s.Addr.(*ssa.IndexAddr); !isIA {
-						continue
-					}
-					k, isC := constInt(s.Val)
-					if !isC {
-						continue
-					}
-					for _, dc := range domConds(b) {
-						if stripConvs(dc.cond) == ssa.Value(enc.Params[0]) {
-							vals[dc.truth] = k
-						}
-					}
+			why := ""
+			for _, bv := range []bool{true, false} {
+				ctx := p.newSym(p.globalInput())
+				if _, ok := ctx.evalPure(enc, []sv{{k: 'b', b: bv}, {k: 's', i: 1, addr: "BUF"}, {k: 'i', i: 0}}, nil, 0); !ok {
+					why = ctx.why
+					continue
+				}
+				if w, ok := ctx.mem["BUF[0]"]; ok && w.k == 'i' {
+					vals[bv] = w.i
 				}
 			}
-			if v1, ok1 := vals[true]; ok1 && v1 == 1 && vals[false] == 0 && len(vals) == 2 {
+			switch {
+			case why != "":
+				c.Unk("R1.4", cons, pos, "cannot evaluate the boolean encoder: "+why)
+			case len(vals) == 2 && vals[true] == 1 && vals[false] == 0:
 				c.OK("R1.4", cons, pos, "true ↔ 1, false ↔ 0 (decoder side: C09 R9.4)")
-			} else {
+			default:
 				c.Bad("R1.4", cons, pos, fmt.Sprintf("the encoder does not map true→1 / false→0 (found %v)", vals))
 			}
 		case "lp":
